@@ -96,14 +96,14 @@ mod h {
             _ => verdict(check_e1107_negative_demand(&ctx), "E1107", any(|t| t.has_demand && t.dem < 0), "E1107"),
         }
     }
-    #[kani::proof] #[kani::unwind(7)] fn e1101_demand_by_task_kind_1() { run::<1>(1101) }
-    #[kani::proof] #[kani::unwind(7)] fn e1103_flags_every_task_kind_1() { run::<1>(1103) }
-    #[kani::proof] #[kani::unwind(7)] fn e1105_empty_job_0() { run::<0>(1105) }
-    #[kani::proof] #[kani::unwind(7)] fn e1105_empty_job_1() { run::<1>(1105) }
-    #[kani::proof] #[kani::unwind(7)] fn e1106_negative_duration_1() { run::<1>(1106) }
-    #[kani::proof] #[kani::unwind(7)] fn e1107_negative_demand_1() { run::<1>(1107) }
-    #[kani::proof] #[kani::unwind(8)] fn e1101_demand_by_task_kind_2() { run::<2>(1101) }
-    #[kani::proof] #[kani::unwind(8)] fn e1103_flags_every_task_kind_2() { run::<2>(1103) }
-    #[kani::proof] #[kani::unwind(8)] fn e1106_negative_duration_2() { run::<2>(1106) }
-    #[kani::proof] #[kani::unwind(8)] fn e1107_negative_demand_2() { run::<2>(1107) }
+    #[kani::proof] #[kani::unwind(3)] fn e1101_demand_by_task_kind_1() { run::<1>(1101) }
+    #[kani::proof] #[kani::unwind(3)] fn e1103_flags_every_task_kind_1() { run::<1>(1103) }
+    #[kani::proof] #[kani::unwind(3)] fn e1105_empty_job_0() { run::<0>(1105) }
+    #[kani::proof] #[kani::unwind(3)] fn e1105_empty_job_1() { run::<1>(1105) }
+    #[kani::proof] #[kani::unwind(3)] fn e1106_negative_duration_1() { run::<1>(1106) }
+    #[kani::proof] #[kani::unwind(3)] fn e1107_negative_demand_1() { run::<1>(1107) }
+    #[kani::proof] #[kani::unwind(4)] fn e1101_demand_by_task_kind_2() { run::<2>(1101) }
+    #[kani::proof] #[kani::unwind(4)] fn e1103_flags_every_task_kind_2() { run::<2>(1103) }
+    #[kani::proof] #[kani::unwind(4)] fn e1106_negative_duration_2() { run::<2>(1106) }
+    #[kani::proof] #[kani::unwind(4)] fn e1107_negative_demand_2() { run::<2>(1107) }
 }
